@@ -78,7 +78,8 @@ will be removed.`,
 					return
 				}
 				char = "gaps"
-				nbstart, nbend, kept, rm = al.RemoveGapSites(cleanCutoff, cleanEnds)
+				// Same as RemoveGapSites, but --ignore-n is taken into account
+				nbstart, nbend, kept, rm = al.RemoveCharacterSites([]uint8{align.GAP}, cleanCutoff, cleanEnds, false, false, cleanIgnoreNs, false)
 			} else if cleanChar == "MAJ" {
 				char = "maj"
 				nbstart, nbend, kept, rm = al.RemoveMajorityCharacterSites(cleanCutoff, cleanEnds, cleanIgnoreGaps, cleanIgnoreNs)
